@@ -1,7 +1,9 @@
 (* C06 — message framing does not depend on how the byte stream is segmented. Pinned statements only. *)
 From Coq Require Import List NArith Lia Bool Arith.
 From Coq.Strings Require Import Byte.
-From L3 Require Import Ber BerFixed Utf8 Frame FrameSpec FrameFixed FrameFixedSpec.
+From RecordUpdate Require Import RecordUpdate.
+From Coq Require Import ZArith.
+From L3 Require Import Ber BerFixed Utf8 Frame FrameSpec FrameFixed FrameFixedSpec Msgid Conn ConnWire.
 Import ListNotations.
 
 (* [EncFixed m v bs]: bs is any definite-length encoding of a well-formed LDAPMessage (nesting within the parser's limit m)
@@ -24,6 +26,15 @@ Theorem c06_any_segmentation : forall m vs bss chunks,
   framed_run (decode_inner' (repaired_d m)) [] chunks = map Deliver vs.
 Proof. exact FrameFixedSpec.c06_any_segmentation_fixed. Qed.
 
+(* the same at the level the caller sees (ConnWire: codec and connection models composed): for a stream of well-formed messages the events the
+   driver is fed - hence every later state of the connection and every delivery to every operation - do not depend on how the bytes were cut *)
+Theorem c06_connection_level : forall (f : fixes) (pre post : list ev) (m : nat) (vs : list (N * tree * list ctrl)) (bss chunks1 chunks2 : list (list byte)),
+  Stream (EncFixed m) vs bss -> concat chunks1 = concat bss -> concat chunks2 = concat bss ->
+  receive m chunks1 = flat_map wire_evs (map Deliver vs) /\
+  run f (pre ++ receive m chunks1 ++ post) = run f (pre ++ receive m chunks2 ++ post).
+Proof. exact ConnWire.c06_connection_level. Qed.
+
 Print Assumptions c06_prefix_needs_more.
 Print Assumptions c06_exact_consumption.
 Print Assumptions c06_any_segmentation.
+Print Assumptions c06_connection_level.
